@@ -158,3 +158,174 @@ Qed.
 Lemma chan_op_labels l s os : chan_ops_of l s os -> os <> [] ->
   l = LRelRead \/ (exists u, l = LRelDeliver u) \/ (exists n, l = LRelStop n) \/ (exists n, l = LRelPush n).
 Proof. destruct 1; intros N; eauto; congruence. Qed.
+
+(** * C10.B1 exactly one Close per Start *)
+Definition rcs (s : state) := (running s, closes s, starts s).
+
+(* how a critical section changes (running, closes, starts), and whether it closes the channel *)
+Inductive close_step (s s' : state) (os : list obs) (l : label) : Prop :=
+| cs_same : rcs s' = rcs s -> countb is_close os = 0 -> close_step s s' os l
+| cs_start : l = LStart -> running s = false -> running s' = true -> closes s' = closes s -> starts s' = S (starts s) ->
+    countb is_close os = 0 -> close_step s s' os l
+| cs_close : running s = true -> running s' = false -> closes s' = S (closes s) -> starts s' = starts s ->
+    countb is_close os = 1 -> close_step s s' os l.
+
+Lemma countb_close_ret os : Forall (fun o => o <> OClose) os -> countb is_close os = 0.
+Proof. induction 1 as [|o l H _ IH]; cbn; auto. destruct o; cbn; auto. congruence. Qed.
+
+Lemma stop_locked_close sc s s' os l : stop_locked sc s = (s', os) -> close_step s s' os l.
+Proof.
+  intros H. apply stop_locked_spec in H as [(_ & -> & ->)|(R & -> & R' & C & S & _)].
+  - apply cs_same; auto.
+  - apply cs_close; auto.
+Qed.
+
+Lemma close_step_frame s s0 s1 s' os os' l :
+  rcs s0 = rcs s -> rcs s' = rcs s1 -> countb is_close os' = countb is_close os ->
+  close_step s0 s1 os l -> close_step s s' os' l.
+Proof.
+  unfold rcs. intros E0 E1 Ec H. injection E0 as A1 A2 A3. injection E1 as B1 B2 B3.
+  destruct H as [H C|L R R' C S Z|R R' C S Z].
+  - apply cs_same; [unfold rcs in *; congruence|congruence].
+  - apply cs_start; congruence.
+  - apply cs_close; congruence.
+Qed.
+
+Lemma sbc_rcs s s' : same_but_cb s s' -> rcs s' = rcs s.
+Proof. intros H. apply sbc_fields in H. unfold rcs. destruct H as (_ & -> & -> & -> & _). reflexivity. Qed.
+
+Lemma pv_rcs s s' : pv s' = pv s -> rcs s' = rcs s.
+Proof. intros H. apply pv_fields in H. unfold rcs. destruct H as (_ & -> & -> & -> & _). reflexivity. Qed.
+
+Lemma chan_ops_close_count os : countb is_close os = countb is_close (filter is_chan_op os).
+Proof. induction os as [|o l IH]; cbn; auto. destruct o; cbn; auto. Qed.
+
+Lemma raw_close_step s l s' os : step_raw s l = Some (s', os) -> close_step s s' os l.
+Proof.
+  intros H.
+  destruct (neutral l) eqn:Neu.
+  { pose proof (raw_chan_ops _ _ _ _ H) as C. apply step_raw_neutral in H as [P _]; auto.
+    apply cs_same; [apply pv_rcs; auto|]. rewrite chan_ops_close_count.
+    destruct C; cbn; auto; discriminate Neu. }
+  destruct l; try discriminate Neu; cbn [step_raw] in H.
+  - destruct (running s) eqn:R; cbn in H; [discriminate|].
+    destruct (wg s =? 0); [|discriminate]. injection H as <- <-. apply cs_start; auto.
+  - injection H as <- <-. apply cs_same; auto.
+  - injection H as <- <-. apply cs_same; auto.
+  - injection H as <- <-. apply cs_same; auto.
+  - destruct (c_push s); injection H as <- <-; apply cs_same; auto.
+  - destruct (find_idx _ 0 (cbs s)); injection H as <- <-; apply cs_same; auto.
+  - (* LRelRead *)
+    destruct (rd s) as [| |f|]; try discriminate. injection H as H. unfold read_cs in H.
+    destruct f as [i|i|sc].
+    1,2: destruct (negb (running s)); [injection H as <- <-; apply cs_same; auto|];
+         destruct i as [|b ms]; [cbn in H; injection H as <- <-; apply cs_same; auto|];
+         destruct ms as [|m0 ms0]; [cbn in H; injection H as <- <-; apply cs_same; auto|];
+         pose proof (filter_batch_sbc (m0 :: ms0) s [] []) as SB;
+         destruct (filter_batch (m0 :: ms0) s [] []) as [[s1 keep] os1] eqn:FB; cbn [fst] in SB;
+         apply sbc_rcs in SB;
+         destruct (filter_batch_obs_ret _ _ _ _ _ _ _ FB) as (ex & -> & F); cbn [app] in *;
+         assert (Z : countb is_close ex = 0) by
+           (apply countb_close_ret; eapply Forall_impl; [|exact F]; intros [] Hr; cbn in Hr; try tauto; discriminate);
+         destruct keep; [injection H as <- <-; apply cs_same; auto|];
+         match type of H with (if ?b then _ else _) = _ => destruct b end; injection H as <- <-;
+         (apply cs_same; [exact SB|rewrite ?countb_app, Z; reflexivity]).
+    destruct (stop_locked sc s) as [s2 os2] eqn:SL. injection H as <- <-.
+    eapply close_step_frame; [reflexivity| |reflexivity|eapply stop_locked_close; eauto]. reflexivity.
+  - (* LRelStop *)
+    destruct (find_op n (ops s)) as [[| |]|]; try discriminate.
+    destruct (stop_locked SCStop _) as [s2 os2] eqn:SL. injection H as <- <-.
+    eapply close_step_frame; [| | |eapply stop_locked_close; eauto]; try reflexivity.
+    rewrite countb_app. cbn. lia.
+  - (* LRelCancel *)
+    destruct (find_op n (ops s)) as [[| |]|]; try discriminate. cbn in H.
+    destruct (assoc id (used s)); injection H as <- <-; apply cs_same; auto.
+    transitivity (rcs (s <| ops ::= del_op n |>)); [apply pv_rcs, cancel_task_pv|reflexivity].
+  - (* LRelPush *)
+    destruct (find_op n (ops s)) as [[| |n' w m p]|]; try discriminate. cbn in H.
+    destruct (running s) eqn:Run; cbn in H; [|injection H as <- <-; apply cs_same; auto; unfold rcs; cbn; congruence].
+    destruct w; [destruct (send_fail s)|]; injection H as <- <-; apply cs_same; auto; unfold rcs; cbn; congruence.
+  - (* LRelCbWatch *)
+    destruct (nth_error (cbs s) c) as [cb0|] eqn:N; [|discriminate].
+    destruct (cb_watch cb0); try discriminate.
+    destruct (assoc _ _); [|injection H as <- <-; apply cs_same; auto].
+    destruct (cb_slot cb0); [injection H as <- <-; apply cs_same; auto|].
+    destruct (_ =? _); [|injection H as <- <-; apply cs_same; auto].
+    assert (E : exists v s1, rcs s1 = rcs s /\ complete_cb c v s1 = (s', os)).
+    { destruct (cb_ctx cb0) as [[|]|]; injection H as H; eexists; eexists; (split; [|exact H]); reflexivity. }
+    destruct E as (v & s1 & E1 & E).
+    pose proof (complete_cb_sbc c v s1) as SB.
+    rewrite E in SB. cbn [fst] in SB. apply sbc_rcs in SB.
+    apply cs_same; [congruence|].
+    unfold complete_cb in E. destruct (nth_error (cbs s1) c) as [c1|]; [|injection E as <- <-; auto].
+    destruct (cb_ret c1); injection E as <- <-; auto.
+Qed.
+
+Lemma settle_obs_no_close extra : Forall settle_obs extra -> countb is_close extra = 0.
+Proof. induction 1 as [|o l H _ IH]; cbn; auto. destruct o; cbn in *; auto; tauto. Qed.
+
+Lemma step_close_step s l s' os : step s l = Some (s', os) -> close_step s s' os l.
+Proof.
+  intros H. apply step_obs_raw in H as (_ & s1 & os1 & ex & Raw & -> & Fx & P).
+  eapply close_step_frame; [reflexivity|apply pv_rcs; exact P| |apply raw_close_step; exact Raw].
+  rewrite countb_app, (settle_obs_no_close _ Fx). lia.
+Qed.
+
+Definition close_balance (s : state) : Prop := closes s + (if running s then 1 else 0) = starts s.
+
+Lemma close_step_balance s s' os l : close_step s s' os l -> close_balance s -> close_balance s'.
+Proof.
+  unfold close_balance, rcs. intros [H _|_ R R' C S _|R R' C S _] B.
+  - injection H as -> -> ->. auto.
+  - rewrite R in B. rewrite R', C, S. lia.
+  - rewrite R in B. rewrite R', C, S. lia.
+Qed.
+
+Lemma close_once_reach c s : reach c s -> close_balance s.
+Proof.
+  induction 1 as [|s l s' os R IH H].
+  - reflexivity.
+  - eapply close_step_balance; [eapply step_close_step; eauto|auto].
+Qed.
+
+(* Close is observed exactly in the windows in which [running] goes from true to false, once *)
+Lemma close_only_when_stopping s l s' os :
+  step s l = Some (s', os) ->
+  (countb is_close os = 1 /\ running s = true /\ running s' = false /\ closes s' = S (closes s)) \/
+  (countb is_close os = 0 /\ closes s' = closes s /\ (running s = true -> running s' = true)).
+Proof.
+  intros H. apply step_close_step in H. destruct H as [H Z|_ R R' C S Z|R R' C S Z].
+  - right. unfold rcs in H. injection H as -> -> _. auto.
+  - right. repeat split; auto.
+  - left. auto.
+Qed.
+
+(* over a whole run: the number of OClose observations equals the number of completed
+   Start/stop cycles, [closes] counts them, and a quiescent stopped server has closed
+   exactly as often as it was started *)
+Fixpoint count_close (oss : list (list obs)) : nat :=
+  match oss with [] => 0 | os :: r => countb is_close os + count_close r end.
+
+Lemma run_close_count : forall tr s s' oss, run s tr = Some (s', oss) -> closes s' = closes s + count_close oss.
+Proof.
+  induction tr as [|l r IH]; cbn; intros s s' oss H.
+  - injection H as <- <-. cbn. lia.
+  - destruct (step s l) as [[s1 os]|] eqn:E; [|discriminate].
+    destruct (run s1 r) as [[s2 oss2]|] eqn:E2; [|discriminate].
+    injection H as <- <-. rewrite (IH _ _ _ E2). cbn.
+    destruct (close_only_when_stopping _ _ _ _ E) as [(-> & _ & _ & ->)|(-> & -> & _)]; lia.
+Qed.
+
+Lemma close_once_trace c tr s oss :
+  run (init_of c) tr = Some (s, oss) -> count_close oss + (if running s then 1 else 0) = starts s.
+Proof.
+  intros H. pose proof (run_close_count _ _ _ _ H) as E. cbn in E.
+  pose proof (close_once_reach c s (run_reach c tr _ _ _ (reach_init c) H)) as B.
+  unfold close_balance in B. lia.
+Qed.
+
+Example close_once_nonvacuous :
+  exists s oss, run (init_of cfg_push) [LStart; LCallStop 1; LRelStop 1; LRelNext; LFeed (FErr SCClosing); LRelRead;
+                              LStart; LFeed (FErr SCEOF); LRelRead] = Some (s, oss) /\
+    starts s = 2 /\ running s = false /\ count_close oss = 2 /\ closes s = 2.
+Proof. eexists. eexists. split; [vm_compute; reflexivity|]. vm_compute. auto. Qed.
